@@ -143,8 +143,19 @@ class Interp(object):
                 raise Undecided('no source for %s' % pyfunc)
             qual, node = ent
         mod = pyfunc.__module__
-        return SrcFunc(fi, node, pyfunc.__globals__, None, getattr(pyfunc, '__qualname__', qual), mod,
-                       pyfunc.__defaults__, pyfunc.__kwdefaults__, cls)
+        closure = None
+        if pyfunc.__closure__:
+            closure = Env(None, None)
+            for nm, cell in zip(code.co_freevars, pyfunc.__closure__):
+                try:
+                    closure.vars[nm] = self.wrap(cell.cell_contents)
+                except ValueError:
+                    pass
+        sf = SrcFunc(fi, node, pyfunc.__globals__, closure, getattr(pyfunc, '__qualname__', qual), mod,
+                     pyfunc.__defaults__, pyfunc.__kwdefaults__, cls)
+        if closure is not None:
+            closure.func = sf
+        return sf
 
     def find_class_attr(self, cls, name):
         for k in cls.__mro__:
